@@ -324,5 +324,5 @@ Qed.
 Lemma gen_for1_eq u ns : incl ns (names_of u) ->
   gen_new_for1 u ns ([], []) = GOk (required_of u ns, implied_of u ns).
 Proof.
-  intro Hk. unfold gen_new_for1. rewrite (gen_split_eq u ns Hk ns [] []). reflexivity.
+  intro Hk. exact (gen_split_eq u ns Hk ns [] []).
 Qed.
